@@ -1,11 +1,11 @@
 #!/bin/bash
-# usage: tools/seed_regress.sh <lanes> [name-pattern]
+# usage: tools/seed_regress.sh <lanes> [property-pattern] [only-names-regex]   (with the third argument the rows of the matching names are replaced in REGRESSION.tsv, the others are kept)
 # Re-runs every stored seeded change (/verif/seeded/<name>/patch.diff) against the CURRENT checks, as a
 # source overlay (VERIF_MUTANTS; /repo is never touched), and records rc + keys in /verif/seeded/REGRESSION.tsv.
 # Changes of one property run one after the other (they share evidence/<id>.json); properties run in
 # <lanes> parallel lanes, each with its own scratch worktree of /repo under /tmp and its own VERIF_WORK.
 # NOTE: overwrites evidence/<id>.json with runs on mutated sources - run the real checks afterwards.
-lanes=${1:-4}; pat=${2:-C}
+lanes=${1:-4}; pat=${2:-C}; only=${3:-}
 cd /verif
 root=/tmp/seedreg; rm -rf $root; mkdir -p $root/out
 props=$(ls seeded | grep -E "^$pat" | grep -E '^C[0-9]+' | sed -E 's/^(C[0-9]+).*/\1/' | sort -u)
@@ -16,6 +16,7 @@ lane() {
   for p in "$@"; do
     for d in $(ls -d seeded/$p seeded/$p-r* 2>/dev/null); do
       name=$(basename $d)
+      [ -n "$only" ] && ! echo "$name" | grep -Eq "$only" && continue
       chk=$(python3 -c "import json,re,sys; print(re.findall(r'bin/check (C\d+)', json.load(open('$d/meta.json'))['checks_run'])[0])")
       m=$root/m$k; rm -rf $m; mkdir -p $m
       ( cd $wt && git checkout -q -- . && git clean -fdq && git apply /verif/$d/patch.diff ) || { echo -e "$name\t$chk\tpatch-does-not-apply\t" >> $root/out/lane$k.tsv; continue; }
@@ -33,6 +34,6 @@ for p in $props; do L[$((i%lanes))]+=" $p"; i=$((i+1)); done
 for k in $(seq 0 $((lanes-1))); do lane $k ${L[$k]} & done
 wait
 git -C /repo worktree prune
-cat $root/out/lane*.tsv | sort > seeded/REGRESSION.tsv
+if [ -n "$only" ]; then ( grep -Ev "^[^	]*($only)" seeded/REGRESSION.tsv; cat $root/out/lane*.tsv ) | sort > $root/merged.tsv; cp $root/merged.tsv seeded/REGRESSION.tsv; else cat $root/out/lane*.tsv | sort > seeded/REGRESSION.tsv; fi
 echo "changes=$(wc -l < seeded/REGRESSION.tsv) caught=$(grep -c 'rc=1' seeded/REGRESSION.tsv) not_caught=$(grep -vc 'rc=1' seeded/REGRESSION.tsv)"
 grep -v 'rc=1' seeded/REGRESSION.tsv
